@@ -1,5 +1,6 @@
 import TracklibVerif.Lemmas.Raster
 import TracklibVerif.Lemmas.RasterSession
+import TracklibVerif.Lemmas.RasterRounded
 import Mathlib.Data.Rat.Floor
 import Mathlib.Tactic.NormNum
 /-! # C19 — grid summarising conserves observations and aggregates per cell
@@ -13,7 +14,13 @@ Scalars: any linearly ordered field with a floor function (`ℚ`, `ℝ`); `floor
 A feature value `none` is NaN. `WF g` says the grid is the one the constructor builds on a bounding box
 `xmin ≤ xmax`, `ymin ≤ ymax` — zero width and zero height included: all observations on one vertical or horizontal
 line, a single observation — with positive resolution (`ncol = max 1 ⌈(xmax-xmin)/rx⌉`,
-`nrow = max 1 ⌈(ymax-ymin)/ry⌉`; the `max 1` is the `fix:` commit bdf8515). -/
+`nrow = max 1 ⌈(ymax-ymin)/ry⌉`; the `max 1` is the `fix:` commit bdf8515).
+
+Floating point. The field theorems speak of exact arithmetic. The last sections restate the geometry for Python's floats:
+`rounded_cell_in_grid` / `rounded_conservation` are about the SAME definitions `mkGrid`, `getCell`, `scatter` instantiated
+at `RQ rnd` (rationals, every operation rounded by `rnd`; `Lemmas/RasterRounded.lean`), under explicit hypotheses on `rnd`
+(monotone, integers up to the grid size kept, relative error `u`). Rounding inside the cell operators' sums is not covered.
+`scatter_stops_at_outside` and `compute_failing_bands` state what a failing call leaves behind. -/
 namespace TV.C19
 open TV.Raster
 variable {α : Type} [Field α] [LinearOrder α] [IsStrictOrderedRing α] [FloorRing α]
@@ -527,5 +534,154 @@ example :
 example : coMin [none, some (1 : ℚ), some 2] = some 1 ∧ coMax [none, some (1 : ℚ), some 2] = some 2
     ∧ coCount [none, some (1 : ℚ), some 2] = 2 ∧ coMedian [none, some (1 : ℚ), some 2] = some (3 / 2)
     ∧ coMedian ([none] : List (Option ℚ)) = none := by decide +kernel
+
+/-! ## What a failing call leaves behind -/
+
+/-- The scatter loop (one track, one feature) meeting an observation outside the extent: the observations before it,
+all inside the extent, are in their cells — cell `(i, j)` holds what it held plus the values of those observations whose
+`getCell` is `(j, i)`, in order —, the loop stops there with `TypeError` (`getCell` returned `None`, the tuple unpacking
+raises), and nothing after that observation is scattered: this is the partial state `addCollectionToRaster` leaves in
+the grid of that feature. (How the partial grids of the several features and tracks combine — the `for trace: for
+afname:` order — is in the model `addColl` and compared by the driver, not stated here.) -/
+theorem scatter_stops_at_outside {W : Type} (g : Grid α) (hg : WF g) (pre post : List (α × α × W)) (o : α × α × W)
+    (c : Cells W) (hR : Rect c g.nrow.toNat g.ncol.toNat)
+    (hpre : ∀ p ∈ pre, Inside g p.1 p.2.1) (ho : ¬ Inside g o.1 o.2.1) :
+    ∃ c' : Cells W, scatterP Int.floor g c (pre ++ o :: post) = (c', some .type)
+      ∧ scatter Int.floor g c pre = some c' ∧ Rect c' g.nrow.toNat g.ncol.toNat
+      ∧ ∀ i j, cellAt c' i j = cellAt c i j
+          ++ located (fun p : α × α × W => getCell Int.floor g p.1 p.2.1) (fun p => p.2.2) j i pre := by
+  have hrange : ∀ p ∈ pre, ∃ col line : Int, getCell Int.floor g p.1 p.2.1 = some (col, line)
+      ∧ 0 ≤ col ∧ col < (g.ncol.toNat : ℤ) ∧ 0 ≤ line ∧ line < (g.nrow.toNat : ℤ) := by
+    intro p hp
+    obtain ⟨cc, r, h, c0, c1, r0, r1, _⟩ := getCell_footprint g hg p.1 p.2.1 (hpre p hp).1 (hpre p hp).2
+    refine ⟨cc, r, h, c0, ?_, r0, ?_⟩
+    · rw [Int.toNat_of_nonneg hg.ncol_pos.le]; exact c1
+    · rw [Int.toNat_of_nonneg hg.nrow_pos.le]; exact r1
+  obtain ⟨c', hsc, hR', hcells⟩ := scatterBy_spec (fun p : α × α × W => getCell Int.floor g p.1 p.2.1)
+    (fun p => p.2.2) g.nrow.toNat g.ncol.toNat pre c hR hrange
+  have hsc' : scatter Int.floor g c pre = some c' := by rw [scatter_eq_scatterBy]; exact hsc
+  refine ⟨c', ?_, hsc', hR', hcells⟩
+  rw [scatterP_append_of_scatter Int.floor g (o :: post) pre c c' hsc']
+  obtain ⟨x, y, v⟩ := o
+  simp only [scatterP, getCell_outside g x y ho]
+
+/-- A failing `computeAggregates` (whatever the exception: `IndexError`, `AttributeError`, `KeyError`, `NameError`): there is
+a first band that raises; the bands before it have been rewritten with their aggregates, that band and all the following
+ones are exactly as they were (no band is ever half rewritten), the exception is that band's, and nothing else of the
+raster (geometry, no-data value, values) changes. -/
+theorem compute_failing_bands (s : RState α) (e : Err) (h : (step Int.floor s .compute).2 = some e) :
+    ∃ (pre : List (Band α)) (b : Band α) (post : List (Band α)), s.bands = pre ++ b :: post
+      ∧ (∀ p ∈ pre, (computeBand s.noData s.values p).2 = none)
+      ∧ computeBand s.noData s.values b = (b, some e)
+      ∧ (step Int.floor s .compute).1
+          = { s with bands := pre.map (fun p => (computeBand s.noData s.values p).1) ++ b :: post } := by
+  simp only [step] at h ⊢
+  have hpair : computeAll s.noData s.values s.bands = ((computeAll s.noData s.values s.bands).1, some e) := by rw [← h]
+  obtain ⟨pre, b, post, h1, h2, h3, h4⟩ := computeAll_fail s.noData s.values s.bands _ e hpair
+  exact ⟨pre, b, post, h1, h2, h3, by rw [h4]⟩
+
+/-- non-vacuity: on the 2 × 2 demo grid, a band computed, then a band without operator: the first band is rewritten, the
+second raises `IndexError` and is left as it was, the third is not reached -/
+example :
+    (run Rat.floor (initState demoGrid (some (-99999 : ℚ)))
+        [.band ["v", "co_count"] none, .band ["v"] none, .band ["v", "co_max"] none, .add ["v"] demoT1, .compute]).1.bands.map (·.grid)
+      = [some [[some 0, some 0], [some 0, some 1]], none, none]
+    ∧ (run Rat.floor (initState demoGrid (some (-99999 : ℚ)))
+        [.band ["v", "co_count"] none, .band ["v"] none, .band ["v", "co_max"] none, .add ["v"] demoT1, .compute]).2
+      = [none, none, none, none, some .index] := by decide +kernel
+/-- non-vacuity: the scatter of (1/2, 1/2), (3, 3), (3/2, 3/2) on the demo grid stops at the second observation -/
+example : scatterP Rat.floor demoGrid (emptyCells 2 2) [((1/2 : ℚ), (1/2 : ℚ), (7 : ℕ)), (3, 3, 8), (3/2, 3/2, 9)]
+    = ([[[], []], [[7], []]], some .type) := by decide +kernel
+
+/-! ## The same geometry in rounded (floating-point) arithmetic
+
+`RQ rnd` (`Lemmas/RasterRounded.lean`): the rationals with every `+ - * /` and every conversion of an integer followed by
+the rounding `rnd`; comparisons exact. `mkGrid`, `getCell`, `scatter` at `RQ rnd` are the SAME model definitions as
+above, now computing what Python computes in floats. `Rounding rnd N`: `rnd` is monotone and leaves the integers of
+magnitude `≤ N` unchanged (IEEE binary64, any rounding mode, `N = 2^53`); `RoundingErr rnd N u` adds a relative error
+bound `|rnd t - t| ≤ u |t|` (`u = 2^-53` for round-to-nearest, no underflow in these operations). `WFR g`: positive
+resolution and `ncol`, `nrow` as the constructor computes them IN ROUNDED ARITHMETIC, `max 1 ⌈rnd (rnd (xmax - xmin) / rx)⌉`
+(every grid `mkGrid RQ.ceil …` is: `mkGrid_wfr`). Exact footprints cannot be demanded of floats (an extent of
+`3 + 10^-17` cells is given 3 lines and the observation at `ymax` goes to line 0, a hair above its exact footprint):
+what holds is stated here. -/
+section rounded
+variable {rnd : ℚ → ℚ}
+
+/-- T1 under rounding. For a grid built by the constructor in rounded arithmetic, every point of the extent — the
+borders and corners included, whatever the rounding did to `extent / resolution` — gets a cell OF THE GRID
+(`0 ≤ column < ncol`, `0 ≤ line < nrow`: `addCollectionToRaster` neither raises `IndexError` nor wraps around through a
+negative index), and the point lies in that cell's footprint up to the rounding allowance `InCellUpTo`: the offset
+`x - xmin` scaled by `(1 ± u)²` lies between the cell's edges `c·rx` and `(c+1)·rx`; for the lines, the rounded
+subtraction from `nrow - 1` adds `u·nrow·ry`. Needs no exactness hypothesis: this is the statement about Python's
+floats, for any rounding with relative error `u`. -/
+theorem rounded_cell_in_grid {N : ℤ} {u : ℚ} (hr : RoundingErr rnd N u) (g : Grid (RQ rnd)) (hg : WFR g)
+    (hN : g.ncol ≤ N ∧ g.nrow ≤ N) (x y : RQ rnd)
+    (hx : g.xmin.v ≤ x.v ∧ x.v ≤ g.xmax.v) (hy : g.ymin.v ≤ y.v ∧ y.v ≤ g.ymax.v) :
+    ∃ c l : ℤ, getCell RQ.floor g x y = some (c, l) ∧ 0 ≤ c ∧ c < g.ncol ∧ 0 ≤ l ∧ l < g.nrow
+      ∧ InCellUpTo g u c l x.v y.v :=
+  getCell_rounded_footprint hr g hg hN x y hx hy
+
+/-- T2 under rounding (conservation for Python's floats). With a monotone rounding that keeps the integers up to the
+grid size — no bound on the rounding error is needed — scattering observations of the extent never fails, every value
+lands in exactly one cell of the grid (the one `getCell` computes), the cell sizes add up to the number of
+observations and any per-value weight (non-NaN: the `co_count` total) is conserved. -/
+theorem rounded_conservation {V : Type} {N : ℤ} (hr : Rounding rnd N) (g : Grid (RQ rnd)) (hg : WFR g)
+    (hN : g.ncol ≤ N ∧ g.nrow ≤ N) (obs : List (RQ rnd × RQ rnd × V))
+    (hin : ∀ o ∈ obs, (g.xmin.v ≤ o.1.v ∧ o.1.v ≤ g.xmax.v) ∧ (g.ymin.v ≤ o.2.1.v ∧ o.2.1.v ≤ g.ymax.v)) :
+    ∃ cells : Cells V,
+      scatter RQ.floor g (emptyCells g.nrow.toNat g.ncol.toNat) obs = some cells
+      ∧ Rect cells g.nrow.toNat g.ncol.toNat
+      ∧ (∀ i j, cellAt cells i j
+          = located (fun o : RQ rnd × RQ rnd × V => getCell RQ.floor g o.1 o.2.1) (fun o => o.2.2) j i obs)
+      ∧ (∑ i ∈ Finset.range g.nrow.toNat, ∑ j ∈ Finset.range g.ncol.toNat, (cellAt cells i j).length) = obs.length
+      ∧ ∀ w : V → ℕ, (∑ i ∈ Finset.range g.nrow.toNat, ∑ j ∈ Finset.range g.ncol.toNat, ((cellAt cells i j).map w).sum)
+          = (obs.map (fun o => w o.2.2)).sum := by
+  have hncol_pos : 0 < g.ncol := by rw [hg.ncol]; exact lt_of_lt_of_le Int.one_pos (le_max_left _ _)
+  have hnrow_pos : 0 < g.nrow := by rw [hg.nrow]; exact lt_of_lt_of_le Int.one_pos (le_max_left _ _)
+  have hrange : ∀ o ∈ obs, ∃ col line : Int, getCell RQ.floor g o.1 o.2.1 = some (col, line)
+      ∧ 0 ≤ col ∧ col < (g.ncol.toNat : ℤ) ∧ 0 ≤ line ∧ line < (g.nrow.toNat : ℤ) := by
+    intro o ho
+    obtain ⟨c, r, h, c0, c1, r0, r1⟩ := getCell_rounded_range hr g hg hN o.1 o.2.1 (hin o ho).1 (hin o ho).2
+    refine ⟨c, r, h, c0, ?_, r0, ?_⟩
+    · rw [Int.toNat_of_nonneg hncol_pos.le]; exact c1
+    · rw [Int.toNat_of_nonneg hnrow_pos.le]; exact r1
+  obtain ⟨cells, hsc, hR, hcells⟩ := scatterBy_spec (fun o : RQ rnd × RQ rnd × V => getCell RQ.floor g o.1 o.2.1)
+    (fun o => o.2.2) g.nrow.toNat g.ncol.toNat obs _ (rect_empty _ _) hrange
+  have hcells' : ∀ i j, cellAt cells i j
+      = located (fun o : RQ rnd × RQ rnd × V => getCell RQ.floor g o.1 o.2.1) (fun o => o.2.2) j i obs := by
+    intro i j; rw [hcells i j, cellAt_empty]; simp
+  have hw := located_weight_sum (fun o : RQ rnd × RQ rnd × V => getCell RQ.floor g o.1 o.2.1) (fun o => o.2.2)
+  refine ⟨cells, by rw [scatter_eq_scatterBy]; exact hsc, hR, hcells', ?_, ?_⟩
+  · have := hw (fun _ => 1) g.nrow.toNat g.ncol.toNat obs hrange
+    simp only [hcells']
+    simpa using this
+  · intro w
+    simp only [hcells']
+    exact hw w g.nrow.toNat g.ncol.toNat obs hrange
+
+end rounded
+
+/-! Non-vacuity of the rounded statements: `rnd8` (exact below 1 in magnitude, rounded DOWN to a multiple of 1/8 above:
+monotone, keeps every integer, relative error ≤ 1/8) is a `RoundingErr`. On the box `[0,1] × [0,13/4]` with cells
+`1 × 21/20` the exact quotient `3.095…` would give 4 lines; rounded it is `3` and the constructor builds 3 lines: the
+observation at `ymax` goes to line 0 (`idy = rnd8 (2 - 3) = -1`), which is a line of the grid, `0.1` above its exact
+footprint `[2.1, 3.15]` and inside it up to the allowance. -/
+def gEx : Grid (RQ rnd8) := mkGrid RQ.ceil ⟨0⟩ ⟨1⟩ ⟨0⟩ ⟨13 / 4⟩ ⟨1⟩ ⟨21 / 20⟩ ⟨0⟩
+
+example : gEx.nrow = 3 ∧ gEx.ncol = 1 ∧ gEx.ymax.v = 13 / 4 ∧ ⌈(13 / 4 : ℚ) / (21 / 20)⌉ = 4 := by decide +kernel
+example : getCell RQ.floor gEx ⟨1⟩ ⟨13 / 4⟩ = some (0, 0) ∧ getCell RQ.floor gEx ⟨1 / 2⟩ ⟨2⟩ = some (0, 1)
+    ∧ getCell RQ.floor gEx ⟨0⟩ ⟨0⟩ = some (0, 2) := by decide +kernel
+example : ∃ c l : ℤ, getCell RQ.floor gEx ⟨1⟩ ⟨13 / 4⟩ = some (c, l) ∧ 0 ≤ c ∧ c < gEx.ncol ∧ 0 ≤ l ∧ l < gEx.nrow
+      ∧ InCellUpTo gEx (1 / 8) c l 1 (13 / 4) :=
+  rounded_cell_in_grid (rnd8_rounding 3) gEx (mkGrid_wfr _ _ _ _ _ _ _ (by decide +kernel) (by decide +kernel))
+    (by decide +kernel) ⟨1⟩ ⟨13 / 4⟩ (by decide +kernel) (by decide +kernel)
+example : ∃ cells : Cells ℕ, scatter RQ.floor gEx (emptyCells 3 1) [(⟨1⟩, ⟨13 / 4⟩, 7), (⟨0⟩, ⟨0⟩, 8), (⟨1 / 2⟩, ⟨2⟩, 9)] = some cells
+    ∧ cells = [[[7]], [[9]], [[8]]] := ⟨_, by decide +kernel, rfl⟩
+/-- what the tolerance of seeded change "ceil(extent/res - 1e-9)" does, in the same arithmetic: with one line fewer than
+the constructor's count the observation at `ymax` is sent to line `-1`, which Python's negative index stores in the BOTTOM
+line -/
+example : getCell RQ.floor { gEx with nrow := 2 } ⟨1⟩ ⟨13 / 4⟩ = some (0, -1)
+    ∧ put (emptyCells 2 1 : Cells ℕ) (-1) 0 7 = some [[[]], [[7]]] := by decide +kernel
+
 
 end TV.C19
